@@ -381,7 +381,8 @@ PROVED_WHOLE = ["CheckHeader (C13, given trace)", "CheckPreprocessorProtection (
                 "CheckSpacing (sp_ok at every position of the statement)",
                 "CheckIdentifierName (names over [a-z0-9_], functions at global scope)",
                 "CheckComment (no comment token; or outside functions every comment first on its line / followed by blanks only)",
-                "CheckLineCount (unconditional: its guard names a rule no primary has)"]
+                "CheckLineCount (unconditional: its guard names a rule no primary has)",
+                "CheckPreprocessorIndent (ppi_line_ok: `#` in column 1, global scope, name at the expected indentation, one space before the argument)"]
 PROVED_PARTIAL = {"CheckControlStatement": "translated part (WRONG_SCOPE, EXP_NEWLINE, FORBIDDEN_CS, ASSIGN_IN_CONTROL): cs_pos_ok at every position, "
                                            "every `(` closed before the line end, indentation >= 1 (scope-trace model)",
                   "CheckUtypeDeclaration": "translated part (TYPE_NOT_GLOBAL / FORBIDDEN_<type>), in headers",
@@ -392,7 +393,7 @@ TESTED_ONLY = ["CheckAssignation", "CheckAssignationIndent", "CheckBlockStart", 
                "CheckControlStatement", "CheckDeclaration", "CheckEnumVarDecl", "CheckFuncArgumentsName",
                "CheckFuncDeclaration", "CheckFuncSpacing", "CheckGeneralSpacing", "CheckGlobalNaming", "CheckInHeader",
                "CheckNestLineIndent", "CheckNewlineIndent", "CheckOperatorsSpacing",
-               "CheckPreprocessorDefine", "CheckPreprocessorInclude", "CheckPreprocessorIndent", "CheckPrototypeIndent",
+               "CheckPreprocessorDefine", "CheckPreprocessorInclude", "CheckPrototypeIndent",
                "CheckStructNaming", "CheckUtypeDeclaration", "CheckVariableDeclaration", "CheckVariableIndent"]
 
 
@@ -569,7 +570,7 @@ def finish(run, b, sizes, ktables, hist):
     }
     return run.finish(max(len(b.theorems), 1), disc, RULE, extra=extra,
                       assumptions=["C01_statement (all 39 checks silent on all of G) is NOT proved and is false of the current tree (K1..K4)",
-                                   "C01_partial_K: 14 of 39 checks proved silent as a whole on conforming statements (5 more partially), under shape / given-history "
+                                   "C01_partial_K: 15 of 39 checks proved silent as a whole on conforming statements (5 more partially), under shape / given-history "
                                    "hypotheses (scope name and indentation derived from the scope-trace model); the code set {INVALID_HEADER} + HEADER_PROT_* + lexical codes; the tokenizer on conforming "
                                    "texts of any number of lines (tabs, identifiers, single spaces, simple operators, brackets, the atoms of Spec/Conforming.v, line ends)",
                                    "K2..K4 are established on the implementation only (CheckOperatorsSpacing is not modelled)"])
